@@ -92,6 +92,18 @@ def step (s : St) (w : List String) : St × String :=
     match computeOn ls with
     | .ok t => ({ s with leaves := ls, tree := some t }, computeLine t)
     | .panic => (s, "panic")
+  | some t, ["badload", m] =>
+    match m.toInt? with
+    | none => (s, "bad-op")
+    | some m =>
+      -- `SetTree` assigns the object's fields only after the size check: a rejected load leaves it as it was
+      match setTreeC m t.tree with
+      | none => (s, "err")
+      | some t2 => ({ s with tree := some t2 }, "ok")
+  | some t, ["reload"] =>
+    match setTree s.leaves.size t.tree with
+    | none => (s, "err")
+    | some t2 => ({ s with tree := some t2 }, "ok")
   | some t, ["export"] =>
     ({ s with exports := s.exports.push (t.tree, s.leaves.size) }, "ok " ++ toString s.exports.size)
   | some _, ["loadcompute", k, n, tag] =>
